@@ -1,10 +1,16 @@
 (* C10 correspondence: cases as printed by harness/c10. *)
-From Verif Require Export Lib.Base Model.C10_ExecConfig.
+From Verif Require Export Lib.Base Model.C10_ExecConfig Model.C10_Service.
 
 (* One case = one JSON document pushed through the real code:
      blockrelay.UnmarshalJSON(doc) -> ProposerConfig for each validator (c_out1)
      -> json.Marshal of the configurator (c_marshalled) -> blockrelay.UnmarshalJSON again
-     -> ProposerConfig for each validator (c_out2). *)
+     -> ProposerConfig for each validator (c_out2);
+   and one history on ONE instance of the block relay service (blockrelay/standard, created without
+   a configuration): refreshes of the configuration from a scripted source (this document again,
+   other documents, documents that are refused, a source that fails) and lookups through
+   Service.ProposerConfig — with the validator's account, without it (as UnblindBlock and
+   ValidatorRegistrations ask), through AuctionBlock — (c_ops), with the answer of every lookup
+   (c_hist). *)
 Record case := {
   c_id : N;
   c_doc : json;                      (* the input document *)
@@ -17,6 +23,8 @@ Record case := {
   c_marshalled : option json;        (* what the implementation marshalled after the lookups *)
   c_ok2 : bool;                      (* unmarshal of the marshalled text succeeded *)
   c_out2 : list outcome;
+  c_ops : list sop;                  (* the history on one service instance *)
+  c_hist : list outcome;             (* what its lookups answered, in order *)
   c_v1_per_value : bool              (* judge legacy lookups by the per-value reading of docs/execlayer.md
                                         (set by the harness when known_findings.json registers
                                         C10-v1-entry-not-fieldwise; see [P_b]) *)
@@ -107,7 +115,19 @@ Definition wf_config_b (c : config) : bool :=
   end.
 
 (* ---- the model's prediction of the whole pipeline ---- *)
-Definition agree (c : case) : bool :=
+(* the history: the service model answers every lookup as the service did, and every document a
+   refresh accepted has key-unique relay maps (the hypothesis of C10_service_history) *)
+Definition op_wf_b (o : sop) : bool :=
+  match o with
+  | SRefresh (FDoc j) => match unmarshal j with Some cfg => wf_config_b cfg | None => true end
+  | _ => true
+  end.
+
+Definition hist_agree (c : case) : bool :=
+  list_eqb outcome_eqb (svc_run None (c_ops c) (c_fbfee c) (c_fbgas c)) (c_hist c)
+  && forallb op_wf_b (c_ops c).
+
+Definition agree_doc (c : case) : bool :=
   match unmarshal (c_doc c) with
   | None => negb (c_ok1 c)
   | Some cfg0 =>
@@ -130,6 +150,8 @@ Definition agree (c : case) : bool :=
                     end
              end)
   end.
+
+Definition agree (c : case) : bool := agree_doc c && hist_agree c.
 
 (* ---- the property on the OBSERVED outputs (the procedural model is not consulted) ----
    [unmarshal] gives the document its meaning (which fields are present at which level);
@@ -170,8 +192,17 @@ Definition P_with (spec : config -> validator -> N -> N -> outcome) (c : case) :
    finding is registered in known_findings.json the harness sets [c_v1_per_value] and the cases
    tagged "v1-fieldwise" are reported as KNOWN-FINDING; until then the whole-entry reading is
    the oracle.  Version 2 documents are judged identically by both. *)
+(* The history: every lookup on the service got the settings the documented precedence gives for
+   ITS OWN arguments (public key, and the account that was passed or none) under the last document
+   a refresh accepted before it (the fallback fee recipient without relays before the first one) —
+   whatever was asked before, with or without account, and however often the configuration was
+   refreshed, refused or unavailable in between. *)
+Definition hist_ok (spec : config -> validator -> N -> N -> outcome) (c : case) : bool :=
+  list_eqb outcome_eqb (svc_spec_run spec [] None (c_ops c) (c_fbfee c) (c_fbgas c)) (c_hist c).
+
 Definition P_b (c : case) : bool :=
-  if c_v1_per_value c then P_with resolve_doc c else P_with resolve c.
+  if c_v1_per_value c then P_with resolve_doc c && hist_ok resolve_doc c
+  else P_with resolve c && hist_ok resolve c.
 
 Definition mismatches (cs : list case) : list N := failing_ids c_id agree cs.
 Definition violations (cs : list case) : list N := failing_ids c_id P_b cs.
